@@ -87,24 +87,14 @@ impl Function {
         self.add_line(line);
     }
 
-    /// Strip debug information for release builds.
+    /// Strip debug information for release builds: function names and line tables.
+    ///
+    /// The names in `global_layout` are not debug information: every function has its own
+    /// layout and the VM binds a nested function's global slots to the program's globals by
+    /// these names, so they stay.
     pub fn strip_debug_info(&mut self) {
         self.name = None;
         self.lines.clear();
-        let names = self.global_layout.names();
-        if !names.is_empty() {
-            let stripped: Vec<String> = names
-                .iter()
-                .map(|name| {
-                    if name.contains("::") {
-                        name.clone()
-                    } else {
-                        String::new()
-                    }
-                })
-                .collect();
-            self.global_layout = GlobalLayout::new(stripped);
-        }
         for nested in &mut self.nested_functions {
             nested.strip_debug_info();
         }
